@@ -10,6 +10,7 @@ run_demo() { # id tag
     case $id in
       C16) ./build.sh $WT >/dev/null 2>&1 && timeout 600 ./demo.sh ;;
       C23|C01|C24) timeout 900 ./demo.sh $WT ;;
+      C08|C35|C28|C13|C15|C09|C04|C17|C03|C32|C25|C34) if [ -x ./demo.sh ]; then timeout 1500 ./demo.sh $WT; else sh ./demo.sh $WT; fi ;;
       *) gcc -O1 -g -D_GNU_SOURCE -std=gnu11 $(mpicc --showme:compile) -I$WT -I$WT/parsec/include -I$WT/_build/parsec/include -I$WT/_build demo.c -o /tmp/demo_$id \
              -L$WT/_build/parsec -lparsec -Wl,-rpath,$WT/_build/parsec $(mpicc --showme:link) -lpthread -lm 2>&1 | tail -3
          timeout 900 /tmp/demo_$id ;;
